@@ -162,12 +162,15 @@ def invoke_all(exists: bool, status_idx: int, pv: int, as_dict: bool, timeout_s:
     h.end()
 
 
-@h.lemma(timeout=120, funcs=ops.INVOKE_FUNCS, bounds="invoke with custom payload/result serdes: START payload produced by serdes_payload, result decoded by serdes_result")
-def invoke_custom_serdes(exists: bool, rv: int):
+@h.lemma(timeout=120, funcs=ops.INVOKE_FUNCS, reach=("end", "empty_text"),
+         bounds="invoke with custom payload/result serdes: START payload produced by serdes_payload; a recorded result text of ANY content (str, len<=2, "
+                "including the empty string - a valid encoding for a raw-text serializer) is handed to serdes_result")
+def invoke_custom_serdes(exists: bool, rv: int, r: str):
     """
+    pre: len(r) <= 2
     post: True
     """
-    rec = ops.invoke_record(exists, 1, ("R", rv), False) if exists else None
+    rec = ops.invoke_record(exists, 1, r, False) if exists else None
     st = FakeState(rec)
     from aws_durable_execution_sdk_python.operation.invoke import InvokeOperationExecutor
     from harness.common import IDENT, run
@@ -175,7 +178,9 @@ def invoke_custom_serdes(exists: bool, rv: int):
     cfg = InvokeConfig(serdes_payload=TagSerDes("P"), serdes_result=TagSerDes("R"))
     tr = run(InvokeOperationExecutor("f", rv, st, IDENT, cfg).process, st)
     if exists:
-        h.check(tr.kind == "ret" and tr.value == ("decoded-R", ("R", rv)), "result must be decoded by serdes_result")
+        if len(r) == 0:
+            h.reach("empty_text")
+        h.check(tr.kind == "ret" and tr.value == ("decoded-R", r), "a recorded result must be decoded by serdes_result, whatever its text")
     else:
         h.check(st.updates_for()[0][0].payload == ("P", rv) and tr.kind == "suspend", "payload must be encoded by serdes_payload")
     h.end()
